@@ -21,7 +21,7 @@ CONFIG = {'assumptions': [
     "augmentation 'S' is observed as the presence of a True-valued flag key in augmentation_dict; the personality "
     'routine as (encoding byte, encoded value)',
     'register rules of a row are compared as a finite map (sorted by register number)']}
-LEVEL = {'text': 'Machine-checked (Props/C06.v, 24 theorems, closed under the global context): (1) entries round trip: every '
+LEVEL = {'text': 'Machine-checked (Props/C06.v, 26 theorems, closed under the global context): (1) entries round trip: every '
                  'well-formed .debug_frame/.eh_frame section built by the Coq encoders (all producer choices as arguments: '
                  'CIE v1/3/4, DWARF32/64, address size 4/8, byte order, augmentations "" and z+RLPS in any order, nine '
                  'pointer formats x absolute/pcrel, section address, LEB128 paddings, FDE before or after its CIE, zero '
@@ -39,7 +39,11 @@ LEVEL = {'text': 'Machine-checked (Props/C06.v, 24 theorems, closed under the gl
                  'tables/field lists, and the hand model of the header structs equals the interpretation of the '
                  'generated layouts on all byte strings. The rest of the hand model (entry scan, augmentation, pointer '
                  'encodings, instruction if-chain, table loop) is pinned to the code by the differential correspondence '
-                 '(impl vs model vs spec on every case, through DWARFInfo.CFI_entries / EH_CFI_entries).',
+                 '(impl vs model vs spec on every case, through DWARFInfo.CFI_entries / EH_CFI_entries). (5) The entry '
+                 'points themselves are modelled (Model/C06Dwarfinfo.v): on one DWARFInfo holding both sections, under any '
+                 'descriptive names/global offsets of the descriptors and in any history of calls, CFI_entries returns the '
+                 '.debug_frame entries and EH_CFI_entries the .eh_frame entries (C06_dwarfinfo_entries/_calls); the '
+                 'correspondence asks both entry points in both orders on such objects with real/None/equal/swapped names.',
          'design_ref': '4.6', 'technique': 'Coq proof (induction, simulation relation, cursor lemmas, cache invariant) + extracted-model correspondence',
          'note': 'Trusted: Coq kernel, ExtrOcamlBasic extraction, harness adapters, the specs written from DWARF 5 '
                  '6.4/7.24 and the LSB .eh_frame description. No axioms. Out of the theorems: pc-relative values are '
@@ -51,7 +55,9 @@ RULE = ('cases: (a) sections of 1..8 entries over {.debug_frame v1/3/4, DWARF32/
         'section addresses 0..2^63}, FDEs referring to any CIE (before or after in .debug_frame), zero terminators in '
         '.eh_frame, instruction lists over all DW_CFA opcodes with boundary operands and padded LEB128; (b) instruction '
         'lists alone; (c) tables alone incl. one probe per opcode x factor signs; (d) truncated/mutated sections '
-        '(out of domain, model drift only). distinct = hash(kind, abstract); non-trivial = a section with >= 2 entries '
+        '(out of domain, model drift only); (e) ONE DWARFInfo holding both a .debug_frame and an .eh_frame section with '
+        'different contents, descriptor names real/None/empty/equal/swapped, histories of 2-3 calls of CFI_entries and '
+        'EH_CFI_entries in both orders. distinct = hash(kind, abstract); non-trivial = a section with >= 2 entries '
         'or an instruction list with >= 2 instructions')
 
 FORMATS = [0, 1, 2, 3, 4, 9, 10, 11, 12]
@@ -323,10 +329,12 @@ def gen_fde(rng, eh, asize, cie_index, info, small):
 ADDRS = [0, 0, 1, 0x1000, 0x400000, 2 ** 31, 2 ** 32 - 4096, 2 ** 32, 2 ** 47, 2 ** 63 - 2 ** 20, 2 ** 63]
 
 
-def gen_section(rng, small=False):
+def gen_section(rng, small=False, force=None):
     eh = rng.random() < 0.55
     le = rng.random() < 0.7
     asize = rng.choice([4, 8])
+    if force is not None:
+        eh, le, asize = force
     addr = rng.choice(ADDRS + [rng.getrandbits(63)])
     n = rng.randrange(1, 4) if small else rng.randrange(1, 9)
     kinds = []
@@ -360,6 +368,27 @@ def gen_section(rng, small=False):
             j = rng.choice(cands)
             entries[i] = gen_fde(rng, eh, asize, j, infos[j], small)
     return [eh, le, asize, addr, entries]
+
+
+NAME_PAIRS = [('.debug_frame', '.eh_frame'), ('none', 'none'), ('', ''), ('frames', 'frames'),
+              ('.eh_frame', '.debug_frame'), ('none', '.eh_frame'), ('.debug_frame', '.debug_frame'),
+              ('.zdebug_frame', '.eh_frame')]
+CALL_ORDERS = [[0, 1], [1, 0], [0, 1, 0], [1, 0, 1], [1, 1, 0], [0, 0, 1]]
+
+
+def _name(n):
+    return 'none' if n == 'none' else n.encode()
+
+
+def gen_dwarfinfo(rng):
+    """one DWARFInfo that holds BOTH a .debug_frame and an .eh_frame section with different contents; the descriptive
+    names of the two descriptors (real, None, equal, swapped); a history of calls of CFI_entries (0) / EH_CFI_entries (1)"""
+    le = rng.random() < 0.7
+    asize = rng.choice([4, 8])
+    sd = gen_section(rng, small=rng.random() < 0.6, force=(False, le, asize))
+    se = gen_section(rng, small=rng.random() < 0.6, force=(True, le, asize))
+    nd, ne = rng.choice(NAME_PAIRS)
+    return [sd, se, _name(nd), _name(ne), list(rng.choice(CALL_ORDERS))]
 
 
 # ------------------------------------------------------------------ fixed corpus (first in every run)
@@ -467,6 +496,9 @@ def gen(ctx):
             t2 = Track(t.cfa, True)
             fis = gen_instrs(rng, asize, t2, n_instrs(rng), p_invalid=0.03)
             cases.append(('table', [caf, daf, cis, rng.choice([0, 0x1000, 2 ** 64 - 16, rng.getrandbits(48)]), fis]))
+    # the public entry points on one object that holds both sections, under every naming of the descriptors
+    for _ in range(ctx.scale(160, 2500)):
+        cases.append(('dwarfinfo', gen_dwarfinfo(rng)))
     # out of domain: damaged sections (model drift only)
     for _ in range(ctx.scale(150, 3000)):
         cases.append(('damaged', [gen_section(rng, small=True), rng.choice(['trunc', 'flip', 'flip', 'extend']),
@@ -564,20 +596,43 @@ def _safe(f, *a):
 
 def impl_section(data, eh, le, asize, addr):
     """-> (entries result, [table result per entry])"""
-    from elftools.dwarf.callframe import FDE
     from elftools.dwarf.dwarfinfo import DWARFInfo, DwarfConfig, DebugSectionDescriptor
     # the public entry points: DWARFInfo.CFI_entries() / EH_CFI_entries() on a DWARFInfo whose only
     # section is the generated one (that is where stream, size, address and base_structs come from)
     sec = DebugSectionDescriptor(stream=io.BytesIO(data), name='.eh_frame' if eh else '.debug_frame',
                                  global_offset=0, size=len(data), address=addr)
-    none = dict.fromkeys(['debug_info_sec', 'debug_aranges_sec', 'debug_abbrev_sec', 'debug_frame_sec', 'eh_frame_sec',
-                          'debug_str_sec', 'debug_loc_sec', 'debug_ranges_sec', 'debug_line_sec', 'debug_pubtypes_sec',
-                          'debug_pubnames_sec', 'debug_addr_sec', 'debug_str_offsets_sec', 'debug_line_str_sec',
-                          'debug_loclists_sec', 'debug_rnglists_sec', 'debug_sup_sec', 'gnu_debugaltlink_sec',
-                          'debug_types_sec'])
+    none = dict.fromkeys(_NO_SECTIONS)
     none['eh_frame_sec' if eh else 'debug_frame_sec'] = sec
     di = DWARFInfo(config=DwarfConfig(little_endian=bool(le), machine_arch='x64', default_address_size=asize), **none)
     es = _safe(di.EH_CFI_entries if eh else di.CFI_entries)
+    return _observe_entries(es)
+
+
+_NO_SECTIONS = ['debug_info_sec', 'debug_aranges_sec', 'debug_abbrev_sec', 'debug_frame_sec', 'eh_frame_sec',
+                'debug_str_sec', 'debug_loc_sec', 'debug_ranges_sec', 'debug_line_sec', 'debug_pubtypes_sec',
+                'debug_pubnames_sec', 'debug_addr_sec', 'debug_str_offsets_sec', 'debug_line_str_sec',
+                'debug_loclists_sec', 'debug_rnglists_sec', 'debug_sup_sec', 'gnu_debugaltlink_sec', 'debug_types_sec']
+
+
+def impl_dwarfinfo(data_d, data_e, sd, se, name_d, name_e, calls):
+    """ONE DWARFInfo with both call frame sections; -> [entries result per call]"""
+    from elftools.dwarf.dwarfinfo import DWARFInfo, DwarfConfig, DebugSectionDescriptor
+    nm = lambda n: None if n == 'none' else n.decode()
+    secs = dict.fromkeys(_NO_SECTIONS)
+    secs['debug_frame_sec'] = DebugSectionDescriptor(stream=io.BytesIO(data_d), name=nm(name_d), global_offset=0,
+                                                     size=len(data_d), address=sd[3])
+    secs['eh_frame_sec'] = DebugSectionDescriptor(stream=io.BytesIO(data_e), name=nm(name_e), global_offset=0,
+                                                  size=len(data_e), address=se[3])
+    di = DWARFInfo(config=DwarfConfig(little_endian=bool(sd[1]), machine_arch='x64', default_address_size=sd[2]), **secs)
+    out = []
+    for c in calls:
+        out.append(_observe_entries(_safe(di.EH_CFI_entries if c else di.CFI_entries))[0])
+    return out
+
+
+def _observe_entries(es):
+    """-> (entries result with FDE -> CIE links as list positions, [table result per entry])"""
+    from elftools.dwarf.callframe import FDE
     if isinstance(es, list) and es and es[0] == 'err' and len(es) == 2 and isinstance(es[1], str):
         return es, []
     out = []
@@ -689,6 +744,8 @@ def evaluate(ctx, cases):
             reqs.append(['instrs', a[0], a[1], a[2]])
         elif kind == 'table':
             reqs.append(['table'] + list(a))
+        elif kind == 'dwarfinfo':
+            reqs.append(['dwarfinfo'] + list(a))
         else:
             raise ValueError(kind)
     answers = drv.batch(reqs)
@@ -743,6 +800,19 @@ def evaluate(ctx, cases):
                         ctx.bump('opcode', ins[0])
             ctx.record(kind, a, impl=[i_entries, impl_t], spec=[s_entries, spec_t], model=[m_entries, model_t],
                        in_domain=bool(wf), nontrivial=n >= 2, key=key)
+        elif kind == 'dwarfinfo':
+            data_d, data_e, wf, m_calls, s_calls = ans
+            sd, se, name_d, name_e, calls = a
+            impl = impl_dwarfinfo(data_d, data_e, sd, se, name_d, name_e, calls)
+            key = None
+            if impl != s_calls:
+                same = (name_d == name_e)
+                key = 'dwarfinfo/both-sections/%s' % ('equal-names' if same else 'distinct-names')
+            ctx.bump('kind', 'dwarfinfo')
+            ctx.bump('descriptor_names', '%s|%s' % (name_d if name_d == 'none' else name_d.decode(),
+                                                    name_e if name_e == 'none' else name_e.decode()))
+            ctx.bump('call_history', ''.join('E' if c else 'D' for c in calls))
+            ctx.record(kind, a, impl=impl, spec=s_calls, model=m_calls, in_domain=bool(wf), nontrivial=True, key=key)
         elif kind == 'damaged':
             sec = a[0]
             data = dmg_data[i]
